@@ -27,6 +27,7 @@ const JUSTIFY: [AlignContent; 9] = [
 const DIRS: [FlexDirection; 4] = [FlexDirection::Row, FlexDirection::Column, FlexDirection::RowReverse, FlexDirection::ColumnReverse];
 const FACTORS: [f32; 4] = [0.0, 0.3, 1.0, 2.5];
 const ITEM_INTS: usize = 19;
+const WATCHDOG_SECS: u64 = 5;
 
 fn is_row(d: FlexDirection) -> bool {
     matches!(d, FlexDirection::Row | FlexDirection::RowReverse)
@@ -557,10 +558,9 @@ fn check_container(t: &TaffyTree<Ctx>, nodes: &[Flat], kids: &[usize], me: usize
     }
     // known finding F-C07-pbfloor: the loop floors a clamped target at 0 instead of padding+border, so an item with an
     // explicit min-size below its padding+border is laid out larger than the size the line was balanced with
-    let pb_floor = flow.iter().zip(infos.iter()).zip(ls.iter()).any(|((_, i), l)| {
-        let below = i.min_explicit && i.min.unwrap() < i.pb || i.max.map(|m| m < i.pb).unwrap_or(false);
-        below && (main_sz(l.size) - i.pb).abs() <= 1e-3 * scale
-    });
+    // (same root cause when the item is a container, which is then laid out at the clamped target, below its padding+border:
+    // the hypothetical size, floored by padding+border, and the loop's clamp disagree)
+    let pb_floor = infos.iter().any(|i| i.min_explicit && i.min.unwrap() < i.pb || i.max.map(|m| m < i.pb).unwrap_or(false));
     let tag = if pb_floor { " [known:pb-floor]" } else { "" };
     for (j, k) in flow.iter().enumerate() {
         let i = &infos[j];
@@ -691,29 +691,49 @@ fn oracle_sub(seed: u64, idx: u64, verbose: bool, sub: Option<usize>) -> (usize,
     (checked, fails)
 }
 
-fn print_case(c: &[i64]) {
-    let r = run_case(c);
-    println!("C {}", c.iter().map(|x| x.to_string()).collect::<Vec<_>>().join(" "));
-    println!("R {}", r.iter().map(|x| x.to_string()).collect::<Vec<_>>().join(" "));
-}
-
 pub fn main(args: &[String]) {
     match args[0].as_str() {
-        "cases" => {
-            let seed: u64 = args[1].parse().unwrap();
-            let n: u64 = args[2].parse().unwrap();
-            for c in corpus() {
-                print_case(&c);
+        "cases" | "one" => {
+            // The layout runs in a worker thread; a case that does not return within the watchdog period is reported as
+            // `R -2` (the freeze/violation loop of a broken implementation may never exit) and the process ends there.
+            let cs: Vec<Vec<i64>> = if args[0] == "one" {
+                vec![args[1..].iter().map(|s| s.parse().unwrap()).collect()]
+            } else {
+                let seed: u64 = args[1].parse().unwrap();
+                let n: u64 = args[2].parse().unwrap();
+                let mut v = corpus();
+                let mut rng = Rng::new(seed ^ 0xC07);
+                for _ in 0..n {
+                    v.push(gen_case(&mut rng));
+                }
+                v
+            };
+            let (tx, rx) = std::sync::mpsc::channel::<(usize, Vec<i64>)>();
+            let work = cs.clone();
+            std::thread::spawn(move || {
+                for (i, c) in work.iter().enumerate() {
+                    let r = run_case(c);
+                    if tx.send((i, r)).is_err() {
+                        return;
+                    }
+                }
+            });
+            let fmt = |v: &[i64]| v.iter().map(|x| x.to_string()).collect::<Vec<_>>().join(" ");
+            for (i, c) in cs.iter().enumerate() {
+                match rx.recv_timeout(std::time::Duration::from_secs(WATCHDOG_SECS)) {
+                    Ok((j, r)) => {
+                        assert_eq!(i, j);
+                        println!("C {}\nR {}", fmt(c), fmt(&r));
+                    }
+                    Err(_) => {
+                        println!("C {}\nR -2", fmt(c));
+                        println!("HANG {}", i);
+                        use std::io::Write;
+                        std::io::stdout().flush().unwrap();
+                        std::process::exit(0);
+                    }
+                }
             }
-            let mut rng = Rng::new(seed ^ 0xC07);
-            for _ in 0..n {
-                let c = gen_case(&mut rng);
-                print_case(&c);
-            }
-        }
-        "one" => {
-            let c: Vec<i64> = args[1..].iter().map(|s| s.parse().unwrap()).collect();
-            print_case(&c);
         }
         "oracle" => {
             let seed: u64 = args[1].parse().unwrap();
@@ -721,11 +741,27 @@ pub fn main(args: &[String]) {
             let start: u64 = args.get(3).map(|s| s.parse().unwrap()).unwrap_or(0);
             let mut checked = 0;
             let mut nfail = 0;
+            // worker thread + watchdog, as above: a tree whose layout does not return is a failure of its own
+            let (tx, rx) = std::sync::mpsc::channel::<(u64, Option<(usize, Vec<String>, [u64; 5])>)>();
+            std::thread::spawn(move || {
+                for idx in start..start + n {
+                    let r = std::panic::catch_unwind(|| oracle_one(seed, idx, false));
+                    let st = STATS.with(|s| *s.borrow());
+                    let msg = match r {
+                        Ok((k, fails)) => Some((k, fails, st)),
+                        Err(_) => None, // panics are C03's business
+                    };
+                    if tx.send((idx, msg)).is_err() {
+                        return;
+                    }
+                }
+            });
+            let mut st = [0u64; 5];
             for idx in start..start + n {
-                let r = std::panic::catch_unwind(|| oracle_one(seed, idx, false));
-                match r {
-                    Ok((k, fails)) => {
+                match rx.recv_timeout(std::time::Duration::from_secs(WATCHDOG_SECS)) {
+                    Ok((_, Some((k, fails, s)))) => {
                         checked += k;
+                        st = s;
                         if let Some(m) = fails.first() {
                             nfail += 1;
                             if nfail <= 20 {
@@ -733,14 +769,21 @@ pub fn main(args: &[String]) {
                             }
                         }
                     }
-                    Err(_) => {} // panics are C03's business
+                    Ok((_, None)) => {}
+                    Err(_) => {
+                        nfail += 1;
+                        println!("FAIL {} hang: the layout of this tree does not return within {} s", idx, WATCHDOG_SECS);
+                        break;
+                    }
                 }
             }
-            let st = STATS.with(|s| *s.borrow());
             println!(
                 "ORACLE {} trees, {} flex containers, {} with known lines ({} multi-line), {} neighbour pairs, {} conservation checks ({} not exactly filled), {} failing trees",
                 n, checked, st[0], st[1], st[2], st[3], st[4], nfail
             );
+            use std::io::Write;
+            std::io::stdout().flush().unwrap();
+            std::process::exit(0);
         }
         "oracle-one" => {
             let seed: u64 = args[1].parse().unwrap();
